@@ -472,14 +472,16 @@ Definition has2 (rs : list redir) : bool := existsb (fun r => is_file_redir r &&
 (* what descriptors 1 and 2 of the stage denote in the model, given what they denote after the prologue *)
 Definition final_sinks (capture last : bool) (rs : list redir) (o e : obj) : obj * obj :=
   if last && capture then
-    let sk := posix_sinks (filter is_file_redir rs) (o, e) in
-    (if has1 rs then fst sk else OPipeW PCapOut, if has2 rs then snd sk else OPipeW PCapErr)
+    if v_capfirst v then posix_sinks rs (OPipeW PCapOut, OPipeW PCapErr)
+    else
+      let sk := posix_sinks (filter is_file_redir rs) (o, e) in
+      (if has1 rs then fst sk else OPipeW PCapOut, if has2 rs then snd sk else OPipeW PCapErr)
   else posix_sinks rs (o, e).
 
 (* nothing is left behind at exec *)
 Definition clean (capture last : bool) (rs : list redir) : bool :=
-  negb (dirty (negb last) capture rs) &&
-  negb (last && capture && (has1 rs || has2 rs) && negb (v_capclose v)).
+  negb (dirty (negb last) (capture && negb (v_capfirst v)) rs) &&
+  negb (last && capture && (has1 rs || has2 rs) && negb (v_capclose v) && negb (v_capfirst v)).
 
 Definition opens_ok (st : stage) : bool :=
   from_openable st && snd (posix_opens openable (s_redirs st)).
@@ -513,13 +515,49 @@ Proof.
   destruct (child_from openable st hs pa) as [pb|q].
   2:{ rewrite RB. cbn. repeat split; try reflexivity; intro; discriminate. }
   destruct RB as (FO & RB). rewrite FO. cbn [andb].
+  assert (NL : (idx <? length pipes) = negb last).
+  { subst last. destruct (Nat.ltb_spec idx (length pipes)), (Nat.eqb_spec idx (length pipes)); try reflexivity; lia. }
+  destruct (v_capfirst v) eqn:VC.
+  - (* ---- proposed order: capture pipes first, then the plain redirection loop ---- *)
+    cbn [negb]. rewrite !andb_false_r, !andb_true_r.
+    assert (exists a' b' pb', 
+              (if (idx =? length pipes) && capture then child_capture v capo cape false false pb else pb) = pb' /\
+              Rep (base3 F (from_obj (pro_in i0 idx) idx st) a' b') [] (tab pb') /\
+              final_sinks capture last (s_redirs st) (pro_out o0 (length pipes) idx) e0 = posix_sinks (s_redirs st) (a', b'))
+      as (a' & b' & pb' & EPB & RB' & FS).
+    { unfold final_sinks. rewrite VC. fold last.
+      destruct (Nat.ltb_spec idx (length pipes)) as [LT|GE].
+      - assert (HL : last = false) by (subst last; apply Nat.eqb_neq; lia). rewrite HL. cbn [andb].
+        exists (pro_out o0 (length pipes) idx), e0, pb. split; [reflexivity|]. split; [exact RB | reflexivity].
+      - assert (HL : last = true) by (subst last; apply Nat.eqb_eq; lia). rewrite HL. cbn [andb].
+        destruct capture eqn:CAP.
+        + unfold cap_ok in CO. destruct CO as (C1 & C2). destruct capo as [o|]; [|congruence]. destruct cape as [e|]; [|congruence].
+          exists (OPipeW PCapOut), (OPipeW PCapErr), (child_capture v (Some o) (Some e) false false pb).
+          split; [reflexivity|]. split; [|reflexivity].
+          pose proof (capture_rep F (from_obj (pro_in i0 idx) idx st) (pro_out o0 (length pipes) idx) e0 [] o e false false pb RB) as RD.
+          unfold capY in RD. cbn [andb app] in RD. exact RD.
+        + unfold cap_ok in CO. destruct CO as (-> & ->). cbn [caplive] in RB.
+          exists (pro_out o0 (length pipes) idx), e0, pb. split; [reflexivity|]. split; [exact RB | reflexivity]. }
+    rewrite EPB.
+    pose proof (redirs_rep (idx <? length pipes) false (s_redirs st) _ _ _ _ _ _ false false RB') as RC.
+    cbv zeta in RC. cbn [negb] in RC. rewrite orb_true_r in RC.
+    destruct (child_redirs v openable (idx <? length pipes) false (s_redirs st) false false pb') as [[[pc so] se]|q].
+    2:{ rewrite RC. cbn. repeat split; try reflexivity; intro; discriminate. }
+    destruct RC as (PO & SO & SE & X & RX & DX). rewrite PO.
+    unfold child_finish.
+    split; [destruct (s_kind st); reflexivity|]. split; [discriminate|]. split; [intros _; destruct (s_kind st); reflexivity|].
+    destruct (s_kind st); cbn [k_out k_proc]; try discriminate. intros _.
+    exists X. split.
+    + rewrite tab_p_exec. apply rep_exec. rewrite FS. unfold eff in RX. rewrite app_nil_r in RX. exact RX.
+    + unfold clean. rewrite VC. cbn [negb]. rewrite !andb_false_r. cbn [negb]. rewrite andb_true_r. rewrite <- NL.
+      intro C. apply DX. apply negb_true_iff in C. exact C.
+  - (* ---- the code as it is ---- *)
+  cbn [negb]. rewrite !andb_false_r, !andb_true_r.
   pose proof (redirs_rep (idx <? length pipes) capture (s_redirs st) _ _ _ _ _ _ false false RB) as RC.
   cbv zeta in RC.
   destruct (child_redirs v openable (idx <? length pipes) capture (s_redirs st) false false pb) as [[[pc so] se]|q].
   2:{ rewrite RC. cbn. repeat split; try reflexivity; intro; discriminate. }
   destruct RC as (PO & SO & SE & X & RX & DX). rewrite PO. cbn [orb] in SO, SE.
-  assert (NL : (idx <? length pipes) = negb last).
-  { subst last. destruct (Nat.ltb_spec idx (length pipes)), (Nat.eqb_spec idx (length pipes)); try reflexivity; lia. }
   unfold child_finish.
   split; [destruct (s_kind st); reflexivity|]. split; [discriminate|]. split; [intros _; destruct (s_kind st); reflexivity|].
   destruct (s_kind st); cbn [k_out k_proc]; try discriminate. intros _.
@@ -529,7 +567,7 @@ Proof.
                                (snd (final_sinks capture last (s_redirs st) (pro_out o0 (length pipes) idx) e0)))
                         Y (tab (if last && capture then child_capture v capo cape so se pc else pc)) /\
                     (clean capture last (s_redirs st) = true -> all_cx Y)) as (Y & RY & CY).
-  { unfold final_sinks, clean. rewrite NL in *. fold last.
+  { unfold final_sinks, clean. rewrite VC. cbn [negb]. rewrite !andb_true_r. rewrite NL in *. fold last.
     destruct (Nat.ltb_spec idx (length pipes)) as [LT|GE].
     - (* not last *)
       assert (last = false) by (subst last; apply Nat.eqb_neq; lia). rewrite H in *. cbn [negb andb orb] in *.
@@ -740,7 +778,7 @@ Qed.
 (* the model's sinks are the POSIX fold, except that a captured last stage ignores 2>&1 / 1>&2 *)
 Lemma final_sinks_posix : forall capture pc idx rs o0 e0,
   idx <= pc ->
-  ((idx =? pc) && capture = false \/ forallb is_file_redir rs = true) ->
+  ((idx =? pc) && capture = false \/ forallb is_file_redir rs = true \/ v_capfirst v = true) ->
   final_sinks capture (idx =? pc) rs (pro_out o0 pc idx) e0
   = posix_sinks rs (std_out o0 (S pc) capture idx, std_err e0 (S pc) capture idx).
 Proof.
@@ -748,9 +786,11 @@ Proof.
   replace (S idx <? S pc) with (idx <? pc) by reflexivity.
   replace (S idx =? S pc) with (idx =? pc) by reflexivity.
   destruct ((idx =? pc) && capture) eqn:LC.
-  - destruct H as [H|H]; [discriminate|]. apply andb_true_iff in LC. destruct LC as (L & C).
+  - apply andb_true_iff in LC. destruct LC as (L & C).
     apply Nat.eqb_eq in L. subst idx. rewrite C.
     assert (E : (pc <? pc) = false) by (apply Nat.ltb_ge; lia). rewrite E.
+    destruct (v_capfirst v) eqn:VC; [reflexivity|].
+    destruct H as [H|[H|H]]; [discriminate| |discriminate].
     rewrite (filter_all _ _ _ H).
     rewrite (file_sinks_gen rs (OPipeW PCapOut) (OPipeW PCapErr) o0 e0 H). reflexivity.
   - destruct (idx <? pc) eqn:LT; [reflexivity|].
